@@ -168,7 +168,7 @@ def run(ctx):
     ctx.assume('records are compared bit-exact NaN-aware with an independent Fitter(...).fit on the same line',
                'a run that writes no record is not generated (zero-byte file: nothing claimed)', 'filter_output is not driven on files holding a record with zero selected fits (no best chi^2 to classify)', 'plot_params_1d/2d (PNG renderers) are driven in the thorough tier only: files produced and unchanged inputs are compared, not the rendering')
     ctx.require_events('trace:fit-run', 'record:compared', 'meta:compared', 'forms:file-vs-list', 'forms:file-vs-object', 'sequence:compared', 'unchanged:checked', 'sequence:written-then-read', 'filter_output:output-names-re-used')
-    ctx.require_regimes('model_dir:not-in-canonical-spelling', 'list-from-two-reads', 'post:plot-with-stored-predictions')
+    ctx.require_regimes('data-file:last-line-without-newline', 'model_dir:not-in-canonical-spelling', 'list-from-two-reads', 'post:plot-with-stored-predictions')
     ctx.require_regimes('skipped-sources', 'output_convolved', 'no-output_convolved', 'mode:2d', 'mode:3d', 'style:v1', 'style:v2',
                         'first-line-ineligible', 'short-line-ends-input', 'duplicate-source-name')
     n_runs = 5 if ctx.quick else 16
@@ -270,7 +270,12 @@ def run(ctx):
         if len(eligible) < n_lines:
             ctx.regime('skipped-sources')
         data = os.path.join(d, 'data.txt')
-        open(data, 'w').write('\n'.join(file_lines) + '\n')
+        # the last line of a data file may or may not end with a newline (editors and scripts differ), or be followed
+        # by an empty line
+        ending = ['\n', '', '\n', '\n\n'][irun % 4]
+        open(data, 'w').write('\n'.join(file_lines) + ending)
+        if ending == '':
+            ctx.regime('data-file:last-line-without-newline')
         out = os.path.join(d, 'fits.out')
         sel = [('A', 0), ('N', int(rng.integers(1, n_models + 1))), ('C', float(10 ** rng.uniform(0, 4)) + 0.0137), ('D', float(10 ** rng.uniform(0, 3)) + 0.0137),
                ('E', float(10 ** rng.uniform(0, 3)) + 0.0137), ('F', float(10 ** rng.uniform(-1, 3)) + 0.0137)][int(rng.integers(6))]
